@@ -6,6 +6,8 @@
 //!
 //! The model is always run on the REAL token stream (real `Tokenizer`, positions included), so this tie
 //! does not depend on the lexer model.
+// catch-all arms keep the harness compiling when the crate adds a variant to one of its error enums (the outcome is then `unknown:<Debug>`)
+#![allow(unreachable_patterns)]
 use trion::text::parse::{Argument, ElementValue, ParseErrorKind, Parser};
 use trion::text::token::{Number, TokenErrorKind, TokenValue, Tokenizer};
 
@@ -372,6 +374,7 @@ fn kind_code(k: &TokenErrorKind) -> String
 		TokenErrorKind::BadCharacter => "bh".to_owned(),
 		TokenErrorKind::BadString => "bs".to_owned(),
 		TokenErrorKind::Unexpected(c) => format!("ux{}", *c as u32),
+		k => format!("unknown:{k:?}"),
 	}
 }
 
@@ -549,6 +552,7 @@ fn real_parse(text: &[u8]) -> RealParse
 					{
 						ParseErrorKind::Token(t) => format!("E {} {} tok {} {} {}", e.line, e.col, kind_code(&t.value), t.line, t.col),
 						ParseErrorKind::Expected{have, expect} => format!("E {} {} exp {} {}", e.line, e.col, expect, have),
+						k => format!("E {} {} unknown:{k:?}", e.line, e.col),
 					};
 					with_pos.push(s.clone());
 					no_pos.push(s);
